@@ -661,7 +661,7 @@ package controller
 // nodeSelector maps the key to the value or a required node-affinity expression on the key uses In and lists it.
 //@ func NewPodAffinityFilterFunc$1(pod) (r)
 //@   requires pod != nil
-//@   ensures [C14] r <==> (!k8s.isDS(pod) && ((has(pod.Spec.NodeSelector, labelKey) && pod.Spec.NodeSelector[labelKey] == labelValue) || affIn(pod, labelKey, labelValue)))
+//@   ensures [C12,C14] r <==> (!k8s.isDS(pod) && ((has(pod.Spec.NodeSelector, labelKey) && pod.Spec.NodeSelector[labelKey] == labelValue) || affIn(pod, labelKey, labelValue)))
 //@ loop #0
 //@   invariant forall t :: 0 <= t && t < #i ==> !termMatch(termsOf(pod)[t], labelKey, labelValue)
 //@ loop #1
@@ -672,12 +672,12 @@ package controller
 // C14 (default group): neither DaemonSet-owned nor static, no nodeSelector, no affinity rules of any kind.
 //@ func NewPodDefaultFilterFunc$1(pod) (r)
 //@   requires pod != nil
-//@   ensures [C14] r <==> (!k8s.isDS(pod) && !k8s.isStatic(pod) && (forall s string :: !has(pod.Spec.NodeSelector, s)) && (pod.Spec.Affinity == nil || (pod.Spec.Affinity.NodeAffinity == nil && pod.Spec.Affinity.PodAffinity == nil && pod.Spec.Affinity.PodAntiAffinity == nil)))
+//@   ensures [C12,C14] r <==> (!k8s.isDS(pod) && !k8s.isStatic(pod) && (forall s string :: !has(pod.Spec.NodeSelector, s)) && (pod.Spec.Affinity == nil || (pod.Spec.Affinity.NodeAffinity == nil && pod.Spec.Affinity.PodAffinity == nil && pod.Spec.Affinity.PodAntiAffinity == nil)))
 
 // C14 (nodes): a node belongs to a group iff its labels map the key to exactly the value.
 //@ func NewNodeLabelFilterFunc$1(node) (r)
 //@   requires node != nil
-//@   ensures [C14] r <==> (has(node.Labels, labelKey) && node.Labels[labelKey] == labelValue)
+//@   ensures [C12,C14] r <==> (has(node.Labels, labelKey) && node.Labels[labelKey] == labelValue)
 
 // The documented scale_on_starve exception: enabled, some pending pod's largest request does not fit in the
 // largest free slot, and the group is below max_nodes.
